@@ -11,7 +11,9 @@ from ..core import short_exc
 
 PREFIX_EXPS = [-24, -21, -18, -15, -12, -9, -6, -3, -2, -1, 0, 1, 2, 3, 6, 9, 12, 15, 18, 21, 24]
 
-M_QUICK = ["0", "1", "-1", "1.5", "-2.5", "999.9995", "1000", "0.001", "1234567", "-0.000123", "1234567890123456789012345"]
+M_QUICK = ["0", "1", "-1", "1.5", "-2.5", "999.9995", "1000", "0.001", "1234567", "-0.000123", "1234567890123456789012345",
+           # pairs closer than the comparison tolerance, and tiny values of either sign: the six operators must stay consistent
+           "1.00000000000000000000001", "-0.000000000000000000001", "0.000000000000000000004"]
 M_MORE = ["1000.0000000000000000001", "999.99999999999999999999", "-1000", "0.5", "3", "7E+2", "1E-7", "-9999999999999999999999999", "0.1000000000000000000000001", "123456.789"]
 
 TOL = Fraction(1, 10**20)
